@@ -139,16 +139,3 @@ def make_subregion(arc: Arc, label: str, length: int) -> Any:
 def describe_exception(err: BaseException) -> str:
     """Short text for an exception of the code under test."""
     return f"{type(err).__name__}: {str(err)[:300]}"
-
-
-def split_evenly(items: Sequence[Any], parts: int) -> List[List[Any]]:
-    """Round-robin split into `parts` lists (roughly equal cost when cost grows along items)."""
-    out: List[List[Any]] = [[] for _ in range(parts)]
-    for index, item in enumerate(items):
-        out[index % parts].append(item)
-    return [chunk for chunk in out if chunk]
-
-
-def optional_int(value: Optional[int]) -> int:
-    """-1 for None (JSON friendliness)."""
-    return -1 if value is None else int(value)
